@@ -350,4 +350,5 @@ pub const PROP: Prop = Prop {
         "litmus expectations follow the specification's job-enqueue rules and were cross-checked at authoring time with V8 (node v20, not part of the listed tooling, never invoked by a check)",
     ],
     nondeterminism_is_violation: false,
+    hang_is_violation: true,
 };
